@@ -636,7 +636,51 @@ def r19(ctx):
         raise AnalysisBroken('C03.R19: retry bookkeeping not found (%d sites)' % n)
 
 
+def autosyn_sites(fn):
+    """the AUTO-SYN send of handleReceive, the read-back recv calls behind it and the name of the symbol read back"""
+    sends = [c for c in device_sends(fn) if fn.val(fn.nodes[c]['args'][0]) == SYN]
+    if len(sends) != 1:
+        raise AnalysisBroken('AUTO-SYN send in handleReceive not recognised (%d candidates)' % len(sends))
+    c = sends[0]
+    recvs = [r for r in fn.calls('recv') if (fn.nodes[r].get('callee') or '').endswith('Device::recv')]
+    behind = [r for r in recvs if fn.reaches_point(fn.pos(c)[0], fn.pos(r), set(), start_idx=fn.pos(c)[1] + 1) and
+              fn.line_of(r) > fn.line_of(c)]
+    if not behind:
+        raise AnalysisBroken('the read-back of the AUTO-SYN in handleReceive was not recognised')
+    a = fn.nodes[fn.strip(fn.nodes[behind[0]]['args'][1], casts=True)]
+    if a.get('k') != 'UnaryOperator' or a.get('op') != '&':
+        raise AnalysisBroken('the read-back of the AUTO-SYN does not store into a local symbol')
+    return c, behind, fn.key(a['ch'][0])
+
+
+def r20(ctx):
+    ctx.rule('C03.R20', 'ebusd takes over as AUTO-SYN generator (m_generateSynInterval = SYN_INTERVAL, the short interval) only '
+             'after it has read its own SYN back intact: every store to m_generateSynInterval in handleReceive lies behind the '
+             'read-back recv() of the AUTO-SYN and is reached only with the received symbol equal to SYN and a non-negative '
+             'result - promoted earlier, a collision on the first AUTO-SYN leaves ebusd sending SYNs at the short interval '
+             'into a bus it never had', minimum=1)
+    fb = ctx.fb
+    fn = fb.fn(A.HR)
+    ctx.touch(fn)
+    c, recvs, rsym = autosyn_sites(fn)
+    n = 0
+    for nid, d, rhs, op, lhs in fn.assignments():
+        if lhs is None or fn.key(lhs) != 'this.m_generateSynInterval':
+            continue
+        n += 1
+        atoms = set((a[0], a[1]) for a in fn.atoms(nid))
+        echo = ('(%s == #%d)' % (rsym, SYN), True) in atoms
+        early = fn.reaches_point(fn.pos(c)[0], fn.pos(nid), set(recvs), start_idx=fn.pos(c)[1] + 1)
+        nonneg = any(k.endswith(' < #0)') and not pol for k, pol in atoms) or any(k.endswith(' == #0)') and pol for k, pol in atoms)
+        ok = echo and not early and nonneg
+        ctx.ob('C03.R20', fn, nid, ok, 'store to m_generateSynInterval',
+               'behind the read-back: %s; received symbol is SYN: %s; result not negative: %s' % (not early, echo, nonneg))
+    if n == 0:
+        raise AnalysisBroken('C03.R20: no store to m_generateSynInterval in handleReceive')
+
+
 def run(ctx):
+    r20(ctx)
     r19(ctx)
     r17(ctx)
     r14(ctx)
